@@ -261,7 +261,7 @@ func (e *Eng) existed(r, allocBefore string) string {
 	e.declFun("fid.ref", "(Int) Int")
 	lvl1 := sx("fid.ref", r)
 	lvl2 := sx("fid.ref", lvl1)
-	return or(and(sx(">=", r, "0"), sx("<", r, allocBefore)),
+	return or(and(sx(">", r, "0"), sx("<", r, allocBefore)),
 		and(sx("<", r, "0"), or(and(sx(">=", lvl1, "0"), sx("<", lvl1, allocBefore)),
 			and(sx("<", lvl1, "0"), sx("<", lvl2, allocBefore)))))
 }
